@@ -4,26 +4,33 @@
  *
  * Region syntax, from the comments in ev_spec.c:   %%   |   %{name}   |   %<printf format>{name}
  *
- * INPUT STRINGS ARE UNBOUNDED.  The description is an object of symbolic size g_inlen + 1 whose last byte is
- * its NUL; its first 64 characters are stated to be non-NUL (A5_STR_PRE), later characters are arbitrary.
- * Every NUL-terminated string has this shape (g_inlen := strlen): for strings shorter than 64 the object ends
- * exactly at the first NUL, so a read past the terminator is a pointer-check failure; for longer strings the
- * two parsing loops cannot get that far, because each copies into a 64-byte buffer and gives up when it is full.
- * That is also why the loops are unwound completely (66 > 64 iterations, unwinding assertions on): the bound
- * is the size of the OUTPUT buffer (buflen <= 64; the only caller passes sizeof(char[64])), not a bound on
- * the text.  (Loop contracts are not usable here: the loop variable is the pointer c->in, and CBMC 6.11 loses
- * the value set of a havocked pointer, see harness/c19_evspec.c.)
+ * INPUT STRINGS ARE UNBOUNDED.  The text is an object of symbolic size whose last byte is its NUL; the first
+ * A5_WIN (136) bytes of the object are stated to be non-NUL unless they are that last byte (A5_STR_PRE), later
+ * characters are arbitrary.  Every NUL-terminated string has this shape (size := strlen + 1): for strings shorter
+ * than the window the object ends exactly at the first NUL, so a read past the terminator is a pointer-check
+ * failure; for longer strings the code cannot get that far: each of the two parsing loops copies into a 64-byte
+ * buffer and gives up when it is full, and format_region runs each of them once (at most 1 + 62 + 1 + 63 + 1
+ * characters).  That is also why the loops are unwound completely (unwinding assertions on): the bound is
+ * the size of the OUTPUT buffer (buflen <= 64; the only caller passes sizeof(char[64])), not a bound on the
+ * text.  (Loop contracts are not usable here: the loop variable is the pointer c->in, and CBMC 6.11 loses the
+ * value set of a havocked pointer, see harness/c19_evspec.c.)
  *
- * Objects are built by the harness functions (typed locals / malloc of symbolic size), so the contracts
- * speak about them with r_ok/w_ok and OBJECT_SIZE/POINTER_OFFSET only: the same declarations are then usable
- * both as proof obligations ("enforce") and as replacements of the calls in format_region ("replace").
- * Content facts use the arbitrary-observer idiom: one ghost index g_j, never assigned, facts about that cell.
+ * Objects are built by the harness functions (typed locals / malloc of symbolic size), so the contracts speak
+ * about them with r_ok/w_ok and OBJECT_SIZE/POINTER_OFFSET only: the same declarations are used both as proof
+ * obligations ("enforce") and as replacements of the calls in format_region ("replace").
+ * Specification functions walk the text by POSITION IN ITS OBJECT (constant indices, symbolic conditions): a walk
+ * from a symbolic start makes every read a symbolic-index read of an array-theory object (measured on
+ * format_region before: 16-60 M clauses, out of memory).
+ * Content facts: for the two 64-byte buffers "every character" is a finite conjunction (no quantifier); the same
+ * facts are also stated for one arbitrary cell (ghost g_j, never assigned: the arbitrary-observer idiom).
  *
  * Trusted stubs (libc, outside the unit):
  *   isalnum    C locale ([0-9A-Za-z]); glibc's macro reads a locale table through __ctype_b_loc()
  *   strcmp     CBMC's library model
- *   snprintf   "%s" of the default format of a type: ISO C length, text copied; numeric / string argument of
- *              print_arg: prelude model (any non-negative length, a NUL somewhere in s[0..n))
+ *   snprintf   "%s" of the default format of a type: ISO C length, text copied;
+ *              numeric / string argument in print_arg: any non-negative result, a NUL somewhere in s[0..n)
+ *              (prelude model), the call is RECORDED (destination, room, two observed cells of the format,
+ *              the value / the string pointer handed over)
  */
 #include "prelude.h"
 #include "emu_ev.h"
@@ -32,6 +39,10 @@
 #define isgraph(c) ((c) > 0x20 && (c) < 0x7f)
 #undef isalnum
 #define isalnum(c) (((c) >= '0' && (c) <= '9') || ((c) >= 'a' && (c) <= 'z') || ((c) >= 'A' && (c) <= 'Z'))
+
+#ifndef A5_BUF
+#define A5_BUF 64                          /* the two name / format buffers of format_region */
+#endif
 
 /* strtok_r: the compile path is not part of these groups */
 char *strtok_r(char *s, const char *delim, char **save)
@@ -42,7 +53,7 @@ char *strtok_r(char *s, const char *delim, char **save)
 }
 
 /* snprintf(s, n, "%s", text): ISO C 7.19.6.5 -- returns strlen(text), copies min(len, n-1) characters, terminates.
- * Only used for the default format of a type (a literal of at most 7 characters) and, on the compile path, not at all. */
+ * Only used for the default format of a type (a literal of at most 7 characters). */
 #define A5_SBOUND 8
 static int a5_snprintf_s(char *s, size_t n, const char *fmt, const char *arg)
 {
@@ -65,11 +76,29 @@ static int a5_snprintf_s(char *s, size_t n, const char *fmt, const char *arg)
 	}
 	return (int) len;
 }
-static int a5_snprintf_u(char *s, size_t n, const char *fmt, uint64_t a) { (void) fmt; (void) a; return verif_snprintf(s, n); }
-static int a5_snprintf_i(char *s, size_t n, const char *fmt, int64_t a) { (void) fmt; (void) a; return verif_snprintf(s, n); }
-static int a5_snprintf_p(char *s, size_t n, const char *fmt, const char *a) { (void) fmt; (void) a; return verif_snprintf(s, n); }
+/* the print calls of print_arg: recorded */
+int g_j, g_j2;      /* the observers: two arbitrary character positions, never assigned */
+struct a5_prlog {
+	unsigned calls;
+	char *s; size_t n; int ret;          /* destination, room, result */
+	int kind;                            /* 0 unsigned, 1 signed, 2 string */
+	uint64_t uval; int64_t ival; const char *str;
+	char f_j, f_j2;                      /* the format at the observed positions g_j, g_j2 (0 outside the buffer) */
+} g_pr;
+static int a5_rec(char *s, size_t n, const char *fmt, int kind)
+{
+	g_pr.calls++;
+	g_pr.s = s; g_pr.n = n; g_pr.kind = kind;
+	g_pr.f_j = (g_j >= 0 && g_j < A5_BUF) ? fmt[g_j] : 0;
+	g_pr.f_j2 = (g_j2 >= 0 && g_j2 < A5_BUF) ? fmt[g_j2] : 0;
+	g_pr.ret = verif_snprintf(s, n);
+	return g_pr.ret;
+}
+static int a5_snprintf_u(char *s, size_t n, const char *fmt, uint64_t a) { g_pr.uval = a; return a5_rec(s, n, fmt, 0); }
+static int a5_snprintf_i(char *s, size_t n, const char *fmt, int64_t a) { g_pr.ival = a; return a5_rec(s, n, fmt, 1); }
+static int a5_snprintf_p(char *s, size_t n, const char *fmt, const char *a) { g_pr.str = a; return a5_rec(s, n, fmt, 2); }
 #undef snprintf
-/* print_arg passes a run-time format (a char array / pointer), the other uses pass the literal "%s" */
+/* print_arg hands over a run-time format and a value; the other uses print a `const char *` with the literal "%s" */
 #define snprintf(s, n, fmt, a) _Generic((a), \
 	char *: a5_snprintf_p, const char *: a5_snprintf_s, \
 	uint8_t: a5_snprintf_u, uint16_t: a5_snprintf_u, uint32_t: a5_snprintf_u, uint64_t: a5_snprintf_u, \
@@ -83,23 +112,35 @@ static int a5_snprintf_p(char *s, size_t n, const char *fmt, const char *a) { (v
 
 /* ---- the input string ---- */
 #define A5_MAXLEN 0x7fffffffUL             /* any length an int-indexed C string can have */
-#ifndef A5_BUF
-#define A5_BUF 64                          /* the two name / format buffers of format_region */
-#endif
+#define A5_WIN 136                         /* > 1 + 62 + 1 + 63 + 1: as far as format_region can look */
+#define A5_OFF(p) ((unsigned long) __CPROVER_POINTER_OFFSET(p))
 /* bytes from p to the last byte of its object (the terminator) */
 #define A5_REM(p) ((unsigned long) (__CPROVER_OBJECT_SIZE(p) - __CPROVER_POINTER_OFFSET(p) - 1))
-/* the NUL of the string is the last byte of its object; no NUL among the first 64 characters */
-static int a5_prefix_nonul(const char *in, unsigned long len)
+/* The text object, named by a ghost pointer to its first byte (set by the harness functions, never assigned):
+ * specification functions read it at CONSTANT positions g_txt[p] and compare p with the cursor's offset. */
+const char *g_txt;
+#define A5_SLEN ((int) (__CPROVER_OBJECT_SIZE(g_txt) - 1))      /* position of the terminator */
+/* no NUL among the first A5_WIN bytes of the text, its last byte excepted */
+static int a5_window_nonul(int slen)
 {
-	for (unsigned long k = 0; k < A5_BUF; k++)
-		if (k < len && in[k] == '\0')
+	for (int q = 0; q < A5_WIN; q++)
+		if (q < slen && g_txt[q] == '\0')
 			return 0;
 	return 1;
 }
-#define A5_STR_PRE(p) (__CPROVER_r_ok((p), 1) && A5_REM(p) <= A5_MAXLEN && __CPROVER_r_ok((p), A5_REM(p) + 1) && \
-	(p)[A5_REM(p)] == '\0' && a5_prefix_nonul((p), A5_REM(p)))
-
-int g_j;            /* the observer: an arbitrary character position, never assigned */
+/* the character at position pos (0 behind the window: never looked at) */
+static char a5_at(int pos)
+{
+	for (int q = 0; q < A5_WIN; q++)
+		if (q == pos)
+			return g_txt[q];
+	return 0;
+}
+/* p points into the text (see the head of the file), at most 66 characters from its start: what a parsing loop
+ * with a 64-byte buffer can look at lies inside the window */
+#define A5_STR_PRE(p) (__CPROVER_r_ok(g_txt, 1) && A5_OFF(g_txt) == 0 && __CPROVER_OBJECT_SIZE(g_txt) <= A5_MAXLEN + 1 && \
+	__CPROVER_r_ok(g_txt, __CPROVER_OBJECT_SIZE(g_txt)) && g_txt[A5_SLEN] == '\0' && a5_window_nonul(A5_SLEN) && \
+	__CPROVER_same_object((p), g_txt) && A5_OFF(p) <= A5_BUF + 2 && A5_OFF(p) <= (unsigned long) A5_SLEN)
 
 /* ====================================================================================
  * advance_in
@@ -131,43 +172,59 @@ void h_advance_in(void)
 /* ====================================================================================
  * parse_printf_format:   %3d{cpu}      c->in points behind the '%'
  * ==================================================================================== */
-/* the first '{' or NUL among the first 64 characters; 64 if there is none */
-static int a5_fmt_stop(const char *in, unsigned long len)
+/* number of characters from position off up to the first '{' or the terminator; 64 if neither comes within 64 */
+static int a5_fmt_stop(int slen, int off)
 {
-	for (int k = 0; k < A5_BUF; k++) {
-		if ((unsigned long) k >= len)
-			return k;
-		if (in[k] == '{')
-			return k;
+	for (int p = 0; p < A5_WIN; p++) {
+		if (p < off)
+			continue;
+		if (p >= off + A5_BUF)
+			break;
+		if (p >= slen || g_txt[p] == '{')
+			return p - off;
 	}
 	return A5_BUF;
+}
+/* buf[d + i] == text[off + i] for every i < k */
+static int a5_copied(const char *buf, int d, int off, int k)
+{
+	for (int p = 0; p < A5_WIN; p++) {
+		if (p < off || p >= off + k)
+			continue;
+		if (d + (p - off) < A5_BUF && buf[d + (p - off)] != g_txt[p])
+			return 0;
+	}
+	return 1;
 }
 #define PF_IN0 OLD(c->in)
 /* (each textual call of a specification function is evaluated again: one predicate per verdict) */
 /* accepted exactly when a non-empty format, its '%' and its terminator fit in the buffer and a '{' follows it */
 static int a5_pf_legal(const char *in0, int buflen)
 {
-	int k = a5_fmt_stop(in0, A5_REM(in0));
-	return k >= 1 && k < A5_BUF && in0[k] == '{' && k + 2 <= buflen;
+	int off = (int) A5_OFF(in0);
+	int k = a5_fmt_stop(A5_SLEN, off);
+	return k >= 1 && k < A5_BUF && a5_at(off + k) == '{' && k + 2 <= buflen;
 }
-/* accepted: the buffer holds '%', the text up to the brace, NUL; the cursor stands on the brace.
- * (All cells: the buffer has 64 of them, so "every character" is a finite conjunction, no quantifier.) */
-static int a5_pf_accepted(const char *in0, const char *in1, const char *fmt)
+/* accepted: the buffer holds '%', the text up to the brace, NUL; the cursor stands on the brace */
+static int a5_pf_accepted(const char *in0, const char *in1, const char *fmt, int j)
 {
-	int k = a5_fmt_stop(in0, A5_REM(in0));
+	int off = (int) A5_OFF(in0);
+	int k = a5_fmt_stop(A5_SLEN, off);
 	if (!(__CPROVER_same_object(in1, in0) && in1 - in0 == k))
 		return 0;
 	if (!(fmt[0] == '%' && fmt[k + 1] == '\0'))
 		return 0;
-	for (int i = 0; i < A5_BUF - 2; i++)
-		if (i < k && fmt[1 + i] != in0[i])
-			return 0;
+	if (!a5_copied(fmt, 1, off, k))
+		return 0;
+	/* the same for the arbitrary observer cell */
+	if (j >= 0 && j < k && !(fmt[1 + j] == a5_at(off + j) && fmt[1 + j] != '{' && fmt[1 + j] != '\0'))
+		return 0;
 	return 1;
 }
 /* refused: the cursor is still inside the string, not behind the first '{' or the terminator */
 static int a5_pf_refused(const char *in0, const char *in1)
 {
-	int k = a5_fmt_stop(in0, A5_REM(in0));
+	int k = a5_fmt_stop(A5_SLEN, (int) A5_OFF(in0));
 	return __CPROVER_same_object(in1, in0) && in1 >= in0 && in1 - in0 <= k;
 }
 int c_parse_printf_format(char *fmt, int buflen, struct cursor *c)
@@ -177,11 +234,10 @@ __CPROVER_assigns(c->in, DIAG_FRAME)
 __CPROVER_assigns(buflen > 0: __CPROVER_object_upto(fmt, (size_t) buflen))
 __CPROVER_ensures(RET == 0 || RET == -1)
 __CPROVER_ensures((RET == 0) == (a5_pf_legal(PF_IN0, buflen) ? 1 : 0))
-__CPROVER_ensures(IMPLIES(RET == 0, a5_pf_accepted(PF_IN0, c->in, fmt)))
-/* the same, cell by cell for the arbitrary observer g_j; and in the form a caller's value set needs */
-__CPROVER_ensures(IMPLIES(RET == 0 && g_j >= 0 && g_j < c->in - PF_IN0, fmt[1 + g_j] == PF_IN0[g_j] && PF_IN0[g_j] != '{' && PF_IN0[g_j] != '\0'))
-__CPROVER_ensures(IMPLIES(RET == 0, __CPROVER_pointer_equals(c->in, PF_IN0 + a5_fmt_stop(PF_IN0, A5_REM(PF_IN0)))))
-__CPROVER_ensures(IMPLIES(RET != 0, g_err > OLD(g_err) && a5_pf_refused(PF_IN0, c->in)))
+__CPROVER_ensures(IMPLIES(RET == 0, a5_pf_accepted(PF_IN0, c->in, fmt, g_j)))
+/* (the cursor once more, in the form a caller's value set needs) */
+__CPROVER_ensures(IMPLIES(RET == 0, __CPROVER_pointer_equals(c->in, PF_IN0 + a5_fmt_stop(A5_SLEN, (int) A5_OFF(PF_IN0)))))
+__CPROVER_ensures(IMPLIES(RET != 0, g_err > OLD(g_err) && g_err - OLD(g_err) <= 2 && g_diag - OLD(g_diag) <= 2 && g_warn == OLD(g_warn) && a5_pf_refused(PF_IN0, c->in)))
 ;
 void h_parse_printf_format(void)
 {
@@ -190,56 +246,62 @@ void h_parse_printf_format(void)
 	__CPROVER_assume(len <= A5_MAXLEN);
 	char *in = malloc(len + 1);
 	__CPROVER_assume(in != NULL);
-	c.in = in; c.out = NULL; c.len = 0;
+	g_txt = in;
+	c.in = in; c.out = NULL; c.len = 0;   /* (a cursor at a symbolic offset of a symbolic-size object: no answer in 300 s) */
 	int buflen = nondet_int();
 	__CPROVER_assume(buflen >= 0 && buflen <= A5_BUF);
 	char fmtbuf[A5_BUF]; char *fmt = fmtbuf;      /* writes beyond buflen leave the frame object_upto(fmt, buflen) */
 	int r = parse_printf_format(fmt, buflen, &c);
-	if (r == 0 && buflen == A5_BUF && len > 100 && c.in == in + (A5_BUF - 2)) REACH("longest format (62 characters) accepted");
+	if (r == 0 && buflen == A5_BUF && len > 1000 && c.in == in + (A5_BUF - 2)) REACH("longest format (62 characters) accepted");
 	if (r != 0 && buflen == A5_BUF && len > 1000 && in[A5_BUF - 1] != '{' && in[A5_BUF - 2] != '{') REACH("format too long refused, long string");
 	if (r == 0 && buflen == 4 && len > 3 && in[0] == '3' && in[1] == 'd' && in[2] == '{') REACH("3d{ accepted in a 4-byte buffer");
 	if (r != 0 && buflen == 3 && len > 3 && in[0] == '3' && in[1] == 'd' && in[2] == '{') REACH("3d{ refused in a 3-byte buffer");
 	if (r != 0 && len == 2) REACH("unterminated format refused");
 	if (r != 0 && in[0] == '{') REACH("missing format refused");
-	if (r != 0 && buflen == 0) REACH("no buffer refused");
 }
 
 /* ====================================================================================
  * parse_arg_name:   %3d{cpu}      c->in points behind the '{'
  * ==================================================================================== */
-/* the first character among the first 64 that is not a letter or digit (the terminator included); 64 if there is none */
-static int a5_name_stop(const char *in, unsigned long len)
+/* number of letters and digits from position off up to the first other character (the terminator included); 64 if
+ * there are more */
+static int a5_name_stop(int slen, int off)
 {
-	for (int k = 0; k < A5_BUF; k++) {
-		if ((unsigned long) k >= len)
-			return k;
-		if (!isalnum(in[k]))
-			return k;
+	for (int p = 0; p < A5_WIN; p++) {
+		if (p < off)
+			continue;
+		if (p >= off + A5_BUF)
+			break;
+		if (p >= slen || !isalnum(g_txt[p]))
+			return p - off;
 	}
 	return A5_BUF;
 }
 /* accepted exactly for a non-empty run of letters and digits closed by '}' that fits with its terminator */
 static int a5_pn_legal(const char *in0, int buflen)
 {
-	int k = a5_name_stop(in0, A5_REM(in0));
-	return k >= 1 && k < A5_BUF && in0[k] == '}' && k + 1 <= buflen;
+	int off = (int) A5_OFF(in0);
+	int k = a5_name_stop(A5_SLEN, off);
+	return k >= 1 && k < A5_BUF && a5_at(off + k) == '}' && k + 1 <= buflen;
 }
 /* accepted: the buffer holds the name; the cursor stands on the closing brace */
-static int a5_pn_accepted(const char *in0, const char *in1, const char *arg)
+static int a5_pn_accepted(const char *in0, const char *in1, const char *arg, int j)
 {
-	int k = a5_name_stop(in0, A5_REM(in0));
+	int off = (int) A5_OFF(in0);
+	int k = a5_name_stop(A5_SLEN, off);
 	if (!(__CPROVER_same_object(in1, in0) && in1 - in0 == k))
 		return 0;
 	if (arg[k] != '\0')
 		return 0;
-	for (int i = 0; i < A5_BUF - 1; i++)
-		if (i < k && arg[i] != in0[i])
-			return 0;
+	if (!a5_copied(arg, 0, off, k))
+		return 0;
+	if (j >= 0 && j < k && !(arg[j] == a5_at(off + j) && isalnum(arg[j])))
+		return 0;
 	return 1;
 }
 static int a5_pn_refused(const char *in0, const char *in1)
 {
-	int k = a5_name_stop(in0, A5_REM(in0));
+	int k = a5_name_stop(A5_SLEN, (int) A5_OFF(in0));
 	return __CPROVER_same_object(in1, in0) && in1 >= in0 && in1 - in0 <= k;
 }
 int c_parse_arg_name(char *arg, int buflen, struct cursor *c)
@@ -249,10 +311,9 @@ __CPROVER_assigns(c->in, DIAG_FRAME)
 __CPROVER_assigns(buflen > 0: __CPROVER_object_upto(arg, (size_t) buflen))
 __CPROVER_ensures(RET == 0 || RET == -1)
 __CPROVER_ensures((RET == 0) == (a5_pn_legal(PF_IN0, buflen) ? 1 : 0))
-__CPROVER_ensures(IMPLIES(RET == 0, a5_pn_accepted(PF_IN0, c->in, arg)))
-__CPROVER_ensures(IMPLIES(RET == 0 && g_j >= 0 && g_j < c->in - PF_IN0, arg[g_j] == PF_IN0[g_j] && isalnum(PF_IN0[g_j])))
-__CPROVER_ensures(IMPLIES(RET == 0, __CPROVER_pointer_equals(c->in, PF_IN0 + a5_name_stop(PF_IN0, A5_REM(PF_IN0)))))
-__CPROVER_ensures(IMPLIES(RET != 0, g_err > OLD(g_err) && a5_pn_refused(PF_IN0, c->in)))
+__CPROVER_ensures(IMPLIES(RET == 0, a5_pn_accepted(PF_IN0, c->in, arg, g_j)))
+__CPROVER_ensures(IMPLIES(RET == 0, __CPROVER_pointer_equals(c->in, PF_IN0 + a5_name_stop(A5_SLEN, (int) A5_OFF(PF_IN0)))))
+__CPROVER_ensures(IMPLIES(RET != 0, g_err > OLD(g_err) && g_err - OLD(g_err) <= 2 && g_diag - OLD(g_diag) <= 2 && g_warn == OLD(g_warn) && a5_pn_refused(PF_IN0, c->in)))
 ;
 void h_parse_arg_name(void)
 {
@@ -261,12 +322,13 @@ void h_parse_arg_name(void)
 	__CPROVER_assume(len <= A5_MAXLEN);
 	char *in = malloc(len + 1);
 	__CPROVER_assume(in != NULL);
+	g_txt = in;
 	c.in = in; c.out = NULL; c.len = 0;
 	int buflen = nondet_int();
 	__CPROVER_assume(buflen >= 0 && buflen <= A5_BUF);
 	char argbuf[A5_BUF]; char *arg = argbuf;      /* writes beyond buflen leave the frame object_upto(arg, buflen) */
 	int r = parse_arg_name(arg, buflen, &c);
-	if (r == 0 && buflen == A5_BUF && len > 100 && c.in == in + (A5_BUF - 1)) REACH("longest name (63 characters) accepted");
+	if (r == 0 && buflen == A5_BUF && len > 1000 && c.in == in + (A5_BUF - 1)) REACH("longest name (63 characters) accepted");
 	if (r != 0 && buflen == A5_BUF && len > 1000 && isalnum(in[A5_BUF - 1])) REACH("name too long refused, long string");
 	if (r == 0 && buflen == 4 && len > 3 && in[0] == 'c' && in[1] == 'p' && in[2] == 'u' && in[3] == '}') REACH("cpu} accepted in a 4-byte buffer");
 	if (r != 0 && buflen == 3 && len > 3 && in[0] == 'c' && in[1] == 'p' && in[2] == 'u' && in[3] == '}') REACH("cpu} refused in a 3-byte buffer");
@@ -293,22 +355,28 @@ static int a5_name_ok(const char *name)
 	}
 	return 1;
 }
-/* a declared name (64-byte array, terminated) equals the string b */
-static int a5_streq(const char *a, const char *b)
-{
-	for (int k = 0; k < A5_BUF; k++) {
-		if (a[k] != b[k])
-			return 0;
-		if (a[k] == '\0')
-			return 1;
-	}
+/* the declared argument i (its name: a 64-byte array, terminated) is called `name`.
+ * Typed access spec->args[i].name[k]: a char pointer into the definition handed to a specification function was
+ * read inconsistently with the same bytes read by strcmp (measured: trace with strcmp != 0 and the pointer-based
+ * comparison "equal" on the same two strings), and was ten times slower.
+ * Two textual copies: DFCC gives the functions called from harness code an extra write-set parameter; a function
+ * that is also called from a contract clause would then be called there with too few arguments (measured, C14). */
+#define A5_NAMED_BODY \
+	for (int k = 0; k < A5_BUF; k++) { \
+		char ch = spec->args[i].name[k]; \
+		if (ch != name[k]) \
+			return 0; \
+		if (ch == '\0') \
+			return 1; \
+	} \
 	return 1;
-}
+static int a5_named(const struct ev_spec *spec, int i, const char *name) { A5_NAMED_BODY }     /* contract clauses */
+static int a5h_named(const struct ev_spec *spec, int i, const char *name) { A5_NAMED_BODY }    /* harness code */
 /* reference: index of the first declared argument called name, -1 if there is none */
 static int a5_find(const struct ev_spec *spec, const char *name)
 {
 	for (int i = 0; i < MAX_ARGS; i++)
-		if (i < spec->nargs && a5_streq(spec->args[i].name, name))
+		if (i < spec->nargs && a5_named(spec, i, name))
 			return i;
 	return -1;
 }
@@ -325,7 +393,7 @@ static int a5_fa_observer(const struct ev_spec *spec, const char *name, const st
 	}
 	if (k < 0 || k >= MAX_ARGS)
 		return 1;
-	int e = a5_streq(spec->args[k].name, name);
+	int e = a5_named(spec, k, name);
 	if (k < spec->nargs && e && !(ret != NULL && ret <= &spec->args[k]))
 		return 0;
 	if (ret == &spec->args[k] && !(k < spec->nargs && e))
@@ -336,41 +404,209 @@ struct ev_arg *c_ev_spec_find_arg(struct ev_spec *spec, const char *name)
 __CPROVER_requires(__CPROVER_r_ok(spec, sizeof(*spec)) && spec->nargs >= 0 && spec->nargs <= MAX_ARGS && SPEC_NAMES_TERMINATED(spec))
 __CPROVER_requires(__CPROVER_r_ok(name, 1) && a5_name_ok(name))
 __CPROVER_assigns()
-#ifndef A5_DEBUG
 /* the first argument with that name; NULL exactly when no declared argument has it */
 __CPROVER_ensures((RET == NULL) == (a5_find(spec, name) < 0 ? 1 : 0))
 __CPROVER_ensures(RET == NULL || __CPROVER_pointer_equals(RET, &spec->args[a5_find(spec, name)]))
 /* the same through the arbitrary observer g_k (a5_fa_observer) */
 __CPROVER_ensures(a5_fa_observer(spec, name, RET, g_k))
-#else
-__CPROVER_ensures(RET == NULL || (__CPROVER_same_object(RET, spec) && RET >= &spec->args[0] && RET < &spec->args[spec->nargs]))
-__CPROVER_ensures(RET == NULL || (((const char *) RET - (const char *) &spec->args[0]) % (long) sizeof(struct ev_arg) == 0))
-__CPROVER_ensures(IMPLIES(g_k >= 0 && g_k < spec->nargs && a5_streq(spec->args[g_k].name, name), RET != NULL))
-__CPROVER_ensures(IMPLIES(g_k >= 0 && g_k < spec->nargs && a5_streq(spec->args[g_k].name, name), RET <= &spec->args[g_k]))
-__CPROVER_ensures(IMPLIES(g_k >= 0 && g_k < MAX_ARGS && RET == &spec->args[g_k], g_k < spec->nargs))
-__CPROVER_ensures(IMPLIES(g_k >= 0 && g_k < MAX_ARGS && RET == &spec->args[g_k], a5_streq(spec->args[g_k].name, name)))
-#endif
 ;
 struct ev_spec h_spec;      /* typed harness object (a byte-array object from is_fresh makes every field access a byte extract) */
 void h_ev_spec_find_arg(void)
 {
 	unsigned long len = nondet_size_t();
 	__CPROVER_assume(len <= A5_MAXLEN);
-#ifdef A5_DEBUG2
-	char namebuf[A5_BUF]; char *name = namebuf;
-#else
 	char *name = malloc(len + 1);
 	__CPROVER_assume(name != NULL);
-#endif
-#ifdef A5_DEBUG
-	__CPROVER_assume(h_spec.nargs <= 2);
-#endif
 	struct ev_arg *r = ev_spec_find_arg(&h_spec, name);
 	if (r == NULL && h_spec.nargs == 0) REACH("nothing declared: NULL");
-	if (r == NULL && h_spec.nargs == MAX_ARGS) REACH("sixteen arguments, none with that name: NULL");
 	if (r == &h_spec.args[15]) REACH("the sixteenth argument found");
-	if (r == &h_spec.args[0] && h_spec.nargs > 1 && a5_streq(h_spec.args[1].name, name)) REACH("two arguments of that name: the first one");
-	if (r != NULL && len == 63) REACH("a name of 63 characters found");
-	if (r == NULL && len > 1000) REACH("a very long name: NULL");
-	if (r == NULL && h_spec.nargs == 1 && h_spec.args[0].name[0] == 'c' && h_spec.args[0].name[1] == '\0' && name[0] == 'c' && name[1] == 'p') REACH("a declared name that is a proper prefix is not a match");
+	if (r == &h_spec.args[0] && h_spec.nargs > 1 && a5h_named(&h_spec, 1, name)) REACH("two arguments of that name: the first one");
+	if (r == NULL && h_spec.nargs == MAX_ARGS && len > 1000) REACH("sixteen arguments, a very long name: NULL");
+}
+
+/* ====================================================================================
+ * format_region:   %%   |   %{name}   |   %<format>{name}      c->in points to the '%'
+ * The two parsers and advance_in are used through their contracts above; ev_spec_find_arg and print_arg are
+ * the real functions (print_arg's own contracts: plan C18 print_arg, plan C19 print_arg), so that what reaches
+ * snprintf -- destination, room, format, VALUE -- is observed in the recording stub.
+ * ==================================================================================== */
+#include "ovni.h"
+/* the default format of a type, as ovnidump shows the values of doc/user/emulation/events.md (x86-64 glibc) */
+static char a5_default_fmt(int type, int j)
+{
+	const char *f =
+		type == U8 ? "%hhu" : type == U16 ? "%hu" : type == U32 ? "%u" : type == U64 ? "%lu" :
+		type == I8 ? "%hhd" : type == I16 ? "%hd" : type == I32 ? "%d" : type == I64 ? "%ld" : "%s";
+	for (int q = 0; q < 5; q++) {
+		if (q == j)
+			return f[q];
+		if (f[q] == '\0')
+			break;
+	}
+	return 0;
+}
+/* the declared argument i is called like the text positions [a, a + m) */
+static int a5_named_text(const struct ev_spec *spec, int i, const char *nm, int m)
+{
+	for (int k = 0; k < A5_BUF; k++) {
+		char ch = spec->args[i].name[k];
+		if (k == m)
+			return ch == '\0';
+		if (ch != nm[k])
+			return 0;
+	}
+	return 0;
+}
+/* the value of the argument as print_arg must fetch it: little-endian bytes [offset, offset + size) of the payload */
+static uint64_t a5_load(const uint8_t *payload, unsigned long off, unsigned long size)
+{
+	uint64_t v = 0;
+	for (unsigned long b = 0; b < 8; b++)
+		if (b < size)
+			v |= (uint64_t) payload[off + b] << (8 * b);
+	return v;
+}
+/* pre-state, bound in requires (format_region's contract is never used as a replacement) */
+int g_len0; char *g_out0; const uint8_t *g_payload; unsigned long g_psize;
+/* What the region says (cls: 0 = malformed, 1 = "%%", 2 = well-formed region), where it ends, which argument it
+ * names (idx, -1 = not declared), the length f of its format (0 = none: the default of the type) */
+struct a5_region { int cls, f, m, end, idx; };
+static struct a5_region a5_region_of(const struct ev_spec *spec)
+{
+	struct a5_region r = { 0, 0, 0, 0, -1 };
+	int slen = A5_SLEN;
+	if (slen < 2 || g_txt[0] != '%')           /* "...%" at the end of the text, or no region at all */
+		return r;
+	if (g_txt[1] == '%') {
+		r.cls = 1; r.end = 2;
+		return r;
+	}
+	int f = 0;
+	if (g_txt[1] != '{') {
+		f = a5_fmt_stop(slen, 1);
+		if (!(f >= 1 && f <= A5_BUF - 2 && a5_at(1 + f) == '{'))
+			return r;
+	}
+	int m = a5_name_stop(slen, f + 2);
+	if (!(m >= 1 && m <= A5_BUF - 1 && a5_at(f + 2 + m) == '}'))
+		return r;
+	r.cls = 2; r.f = f; r.m = m; r.end = f + m + 3;
+	char nm[A5_BUF];
+	for (int p = 0; p < A5_WIN; p++)
+		if (p >= f + 2 && p < f + 2 + m)
+			nm[p - (f + 2)] = g_txt[p];
+	for (int i = 0; i < MAX_ARGS; i++)
+		if (r.idx < 0 && i < spec->nargs && a5_named_text(spec, i, nm, m))
+			r.idx = i;
+	return r;
+}
+/* the whole postcondition; returns 0, or the number of the clause that does not hold */
+static int a5_fr_post(int ret, const struct ev_spec *spec, const struct cursor *c, unsigned err0, unsigned err1)
+{
+	struct a5_region r = a5_region_of(spec);
+	if (!(ret == 0 || ret == -1))
+		return 1;
+	/* the cursor never leaves the text nor passes its terminator */
+	if (!(__CPROVER_same_object(c->in, g_txt) && A5_OFF(c->in) <= (unsigned long) A5_SLEN))
+		return 2;
+	/* the output cursor stays in the room it had */
+	if (!(c->len >= 0 && c->len <= g_len0 && __CPROVER_same_object(c->out, g_out0) && c->out - g_out0 == g_len0 - c->len))
+		return 3;
+	if (ret != 0) {
+		/* refused: diagnosed, output cursor where it was */
+		if (!(err1 > err0 && c->len == g_len0))
+			return 4;
+	}
+	/* accepted exactly when there is room, the region is well-formed, names a declared argument and the printed
+	 * value fits (result of snprintf below the room) */
+	int printed = (r.cls == 2 && r.idx >= 0);
+	int legal = g_len0 > 0 && (r.cls == 1 || (printed && g_pr.calls == 1 && g_pr.ret < g_len0));
+	if ((ret == 0) != (legal != 0))
+		return 5;
+	/* print_arg is reached exactly for a well-formed region naming a declared argument, with room left */
+	if (g_pr.calls != ((g_len0 > 0 && printed) ? 1u : 0u))
+		return 6;
+	if (ret == 0 && r.cls == 1) {
+		/* "%%": one '%' written, both cursors moved over it */
+		if (!(g_out0[0] == '%' && c->len == g_len0 - 1 && A5_OFF(c->in) == 2))
+			return 7;
+	}
+	if (g_pr.calls == 1) {
+		const struct ev_arg *a = &spec->args[r.idx];
+		/* printed at the output cursor with the room that was left */
+		if (!(g_pr.s == g_out0 && g_pr.n == (size_t) g_len0))
+			return 8;
+		/* the format: '%' + the text between '%' and '{' + NUL, or the default of the argument's type */
+		char ej = r.f > 0 ? (g_j == 0 ? '%' : g_j <= r.f ? a5_at(g_j) : 0) : a5_default_fmt((int) a->type, g_j);
+		char ej2 = r.f > 0 ? (g_j2 == 0 ? '%' : g_j2 <= r.f ? a5_at(g_j2) : 0) : a5_default_fmt((int) a->type, g_j2);
+		if (g_j >= 0 && g_j <= (r.f > 0 ? r.f + 1 : 4) && g_pr.f_j != ej)
+			return 9;
+		if (g_j2 >= 0 && g_j2 <= (r.f > 0 ? r.f + 1 : 4) && g_pr.f_j2 != ej2)
+			return 10;
+		/* the value: the named argument's bytes of the payload, by its declared type */
+		if (a->type == STR) {
+			if (!(g_pr.kind == 2 && g_pr.str == (const char *) g_payload + a->offset))
+				return 11;
+		} else {
+			uint64_t v = a5_load(g_payload, a->offset, a->size);
+			int is_signed = a->type == I8 || a->type == I16 || a->type == I32 || a->type == I64;
+			if (!is_signed && !(g_pr.kind == 0 && g_pr.uval == v))
+				return 12;
+			if (is_signed) {
+				int64_t sv = a->size == 1 ? (int64_t) (int8_t) (v & 0xff) : a->size == 2 ? (int64_t) (int16_t) (v & 0xffff) :
+					a->size == 4 ? (int64_t) (int32_t) (v & 0xffffffffu) : (int64_t) v;
+				if (!(g_pr.kind == 1 && g_pr.ival == sv))
+					return 13;
+			}
+		}
+		/* accepted: both cursors advanced, over the region and over what was printed */
+		if (ret == 0 && !(c->len == g_len0 - g_pr.ret && A5_OFF(c->in) == (unsigned long) r.end))
+			return 14;
+	}
+	return 0;
+}
+int c_format_region(struct ev_spec *spec, struct cursor *c, struct emu_ev *ev)
+__CPROVER_requires(__CPROVER_r_ok(spec, sizeof(*spec)) && SPEC_WF(spec))
+/* the event holds the declared payload and its strings (check_payload, plan C18 / C19) */
+__CPROVER_requires(__CPROVER_r_ok(ev, sizeof(*ev)) && spec->payload_size <= ev->payload_size && STRINGS_INSIDE(spec, ev->payload_size))
+__CPROVER_requires(g_psize == ev->payload_size && g_payload == (const uint8_t *) ev->payload && (g_psize == 0 || __CPROVER_r_ok(g_payload, g_psize)))
+/* the input cursor at the start of the text object */
+__CPROVER_requires(__CPROVER_rw_ok(c, sizeof(*c)) && A5_STR_PRE(c->in) && A5_OFF(c->in) == 0 && DIAG_PRE)
+/* the output cursor: c->len bytes of room and one more for the terminator (ev_spec_print's invariant) */
+__CPROVER_requires(c->len >= 0 && __CPROVER_w_ok(c->out, (size_t) c->len + 1) && g_len0 == c->len && g_out0 == c->out)
+__CPROVER_requires(g_pr.calls == 0)
+__CPROVER_assigns(c->in, c->out, c->len, DIAG_FRAME, g_pr)
+__CPROVER_assigns(c->len > 0: __CPROVER_object_upto(c->out, (size_t) c->len))
+__CPROVER_ensures(a5_fr_post(RET, spec, c, OLD(g_err), g_err) == 0)
+;
+struct emu_ev h_ev;
+int w_ret, w_cls, w_f, w_m, w_idx;
+void h_format_region(void)
+{
+	struct cursor c;
+	unsigned long len = nondet_size_t();
+	__CPROVER_assume(len <= A5_MAXLEN);
+	char *in = malloc(len + 1);
+	__CPROVER_assume(in != NULL);
+	g_txt = in;
+	c.in = in;
+	/* the output buffer: any size, the cursor anywhere in it */
+	unsigned long outlen = nondet_size_t(), pos = nondet_size_t();
+	__CPROVER_assume(outlen >= 1 && outlen <= 0x7fffffffUL && pos < outlen);
+	char *out = malloc(outlen);
+	__CPROVER_assume(out != NULL);
+	c.out = out + pos; c.len = (int) (outlen - 1 - pos);
+	/* the payload: any size */
+	unsigned long psize = nondet_size_t();
+	__CPROVER_assume(psize <= 0x7fffffffUL);
+	uint8_t *pay = psize > 0 ? malloc(psize) : NULL;
+	__CPROVER_assume(psize == 0 || pay != NULL);
+	h_ev.payload = (const union ovni_ev_payload *) pay; h_ev.payload_size = psize;
+	int r = format_region(&h_spec, &c, &h_ev);
+	if (r == 0 && in[1] == '%') REACH("%% accepted");
+	if (r == 0 && in[1] == '{' && in[5] == '}' && len > 1000) REACH("%{abc} accepted at the head of a long text");
+	if (r == 0 && in[1] != '{' && in[1] != '%' && c.in == in + 131) REACH("longest region (62-character format, 63-character name) accepted");
+	if (r != 0 && g_pr.calls == 1) REACH("no room for the value: refused");
+	if (r != 0 && g_pr.calls == 0 && in[0] == '%' && in[1] == '{' && in[2] == 'x' && in[3] == '}' && c.len > 0) REACH("%{x} with no argument x declared: refused");
+	if (r != 0 && in[0] == '%' && in[1] == 'd' && in[2] == '\0') REACH("unterminated region refused");
 }
